@@ -173,6 +173,41 @@ theorem lost_update_write_late (gc : Guard.Cfg) (ris : Bool) :
       (fun s => (s.val, s.log.length)) = some (1, 2) := by
   cases gc with | mk r => cases r <;> cases ris <;> decide
 
+theorem perm_pair' {α : Type} (l : List α) (a b : α) (h : l.Perm [a, b]) : l = [a, b] ∨ l = [b, a] := by
+  have hl := h.length_eq
+  match l, hl with
+  | [x, y], _ =>
+    have hx : x ∈ [a, b] := h.subset (by simp)
+    have hy : y ∈ [a, b] := h.subset (by simp)
+    have ha : a ∈ [x, y] := h.symm.subset (by simp)
+    have hb : b ∈ [x, y] := h.symm.subset (by simp)
+    simp at hx hy ha hb
+    rcases hx with rfl | rfl <;> rcases hy with rfl | rfl
+    · rcases hb with rfl | rfl <;> simp
+    · simp
+    · simp
+    · rcases ha with rfl | rfl <;> simp
+
+/-- the response is read back after `Save` has released the guard (immediate-write mode): A writes 1 and releases,
+    B writes 2, then both read their response from the object: 2 and 2 -/
+def witnessRespLate : List Lin.Act := ths [1, 1, 1, 1, 2, 2, 2, 2, 1, 2, 1, 2]
+
+theorem stale_response_after_save (gc : Guard.Cfg) :
+    (Lin.run { guard := gc, releaseInSave := true, shape := .respAfterSave } inc1 (Lin.init 0) witnessRespLate).map
+      (fun s => (s.val, s.log.map (·.resp))) = some (2, [2, 2]) := by
+  cases gc with | mk r => cases r <;> decide
+
+/-- no serial order of two increments from 0 answers 2 twice -/
+theorem no_order_answers_twice (l : List Entry) (h : l.map (·.resp) = [2, 2]) (order : List Entry) (hp : order.Perm l) :
+    replay inc1 0 order ≠ some 2 := by
+  match l, h with
+  | [a, b], h =>
+    simp at h
+    rcases perm_pair' order a b hp with rfl | rfl <;> simp [replay, inc1, h.1, h.2]
+  | [], h => simp at h
+  | [_], h => simp at h
+  | _ :: _ :: _ :: _, h => simp at h
+
 /-- a value that is not "initial + number of calls" cannot be explained by any serial order -/
 theorem not_linearizable_of_count (s : Lin.St) (n : Nat) (v : Int) (hl : s.log.length = n) (hv : s.val = v)
     (hne : v ≠ 0 + (n : Int)) : ¬ Linearizable inc1 0 s := by
@@ -286,7 +321,7 @@ theorem holds_repaired (rel : Bool) :
 /-! ### decision over the extracted facts -/
 
 inductive ShapeFact where
-  | guarded | readBeforeAcquire | writeAfterRelease | unknown
+  | guarded | readBeforeAcquire | writeAfterRelease | respAfterSave | unknown
   deriving DecidableEq, Repr
 
 structure Facts where
@@ -304,6 +339,7 @@ structure Facts where
 def shapeOf : ShapeFact → Shape
   | .readBeforeAcquire => .readBeforeAcquire
   | .writeAfterRelease => .writeAfterRelease
+  | .respAfterSave => .respAfterSave
   | _ => .guarded
 
 def cfgOf (f : Facts) : Cfg :=
@@ -316,7 +352,8 @@ def findings (c : Cfg) : List String :=
   (match c.shape with
    | .guarded => if c.guard.resetsIdOnEmpty && c.releasesWhenImmediate then ["C09-lost-update-guard-id-reuse"] else []
    | .readBeforeAcquire => ["C09-read-outside-guard"]
-   | .writeAfterRelease => ["C09-write-outside-guard"]) ++
+   | .writeAfterRelease => ["C09-write-outside-guard"]
+   | .respAfterSave => if c.releasesWhenImmediate then ["C09-response-read-after-save"] else []) ++
   (if c.stale.recheck then [] else ["C09-delete-increment-stale-object"])
 
 def classify (f : Facts) : Verdict :=
@@ -327,8 +364,8 @@ def classify (f : Facts) : Verdict :=
   if f.rechecksObjectUnderGuard = .unknown then .undetermined "increment.rechecksObjectUnderGuard" else
   if f.setTestsExistenceUnderGuard = .unknown then .undetermined "set.testsExistenceUnderGuard" else
   match findings (cfgOf f) with
-  | [] => if f.resetsIdOnEmpty = .no then .holds
-          else .undetermined "no theorem covers guard ID reuse without the in-save release"
+  | [] => if f.resetsIdOnEmpty = .no ∧ (cfgOf f).shape = .guarded then .holds
+          else .undetermined "no theorem covers this combination (guard ID reuse without the in-save release / response read after Save without it)"
   | fs => .violated fs
 
 /-- The `_partial` statement: with guard IDs never reused and well-formed bodies, every history
@@ -364,6 +401,20 @@ theorem refutes_of_findings (c : Cfg) (h : findings c ≠ []) : ¬ Holds c := by
     | writeAfterRelease =>
       exact refutes_lin c false (fun h => by simp at h) witnessWriteLate 1 2
         (by simp only [Cfg.lin, hsh]; exact lost_update_write_late _ _) (by decide)
+    | respAfterSave =>
+      have hb : c.releasesWhenImmediate = true := by
+        cases hx : c.releasesWhenImmediate <;> simp [findings, hsh, hst', hx] at h ⊢
+      intro hh
+      have hw := stale_response_after_save c.guard
+      have hl : c.lin true = { guard := c.guard, releaseInSave := true, shape := .respAfterSave } := by simp [Cfg.lin, hsh]
+      cases hr : Lin.run (c.lin true) inc1 (Lin.init 0) witnessRespLate with
+      | none => rw [hl] at hr; rw [hr] at hw; simp at hw
+      | some s =>
+        have hr' := hr
+        rw [hl] at hr'; rw [hr'] at hw; simp at hw
+        obtain ⟨order, hp, _, hrep⟩ := (hh.lin true (fun _ => hb) inc1 0 witnessRespLate s hr).order
+        rw [hw.1] at hrep
+        exact no_order_answers_twice s.log hw.2 order hp hrep
 
 theorem classify_sound (f : Facts) : (classify f).Sound (Holds (cfgOf f)) (HoldsPartial (cfgOf f)) := by
   unfold classify
@@ -376,11 +427,10 @@ theorem classify_sound (f : Facts) : (classify f).Sound (Holds (cfgOf f)) (Holds
   split
   · rename_i hf
     split
-    · rename_i hres
+    · rename_i hres0
       rename_i hu1 hu2 hu3 hu4 hu5 hu6
+      obtain ⟨hres, hsh⟩ := hres0
       -- no findings: guarded bodies, re-check present; IDs never reused
-      have hsh : (cfgOf f).shape = .guarded := by
-        cases hs : (cfgOf f).shape <;> simp [findings, hs] at hf ⊢
       have hre : (cfgOf f).stale.recheck = true := by
         cases hr : (cfgOf f).stale.recheck <;> simp [findings, hr] at hf ⊢
       have hc : cfgOf f = { guard := noReset, releasesWhenImmediate := (cfgOf f).releasesWhenImmediate, shape := .guarded,
